@@ -297,7 +297,17 @@ def time_sections(ctx, pid):
     verify_contracts(s, ce.time_contracts(pid), TimeTheory, ["pvl.encoder"], jobs=min(3, ctx.jobs))
     s.assumptions += TIME_ASSUMPTIONS
     s.seconds = time.time() - t0
-    return [s]
+    from ..pyvc.timetheory import OffsetTheory
+    o = Section("decoder-zone-offset-contract", "smt",
+                rule="ODLDecoder.decode_datetime (ODL and Omni receivers): an offset suffix is attached only to a time / date-time that the "
+                     "plain decoder accepts without it and that is not marked Z, and the attached zone is sign * (HH hours + MM minutes)")
+    t1 = time.time()
+    verify_contracts(o, ce.offset_contracts(pid), OffsetTheory, ["pvl.decoder"], jobs=2)
+    o.assumptions += ["the groups of the inline offset pattern are symbolic: sign in {+,-}, hour 0..12, minute 0..59 (the pattern's language: "
+                      "regex obligations offset:*); int() of a digit group is its number, an absent minute group is the default 0",
+                      "super().decode_datetime: returns or raises ValueError (functional contract: T_dec); timezone() refuses offsets of a day or more"]
+    o.seconds = time.time() - t1
+    return [s, o]
 
 
 def sections_for(pid, ctx):
@@ -361,7 +371,7 @@ def replay_time(pid, data):
 
 
 def is_time_record(data):
-    return str(data.get("function", "")).endswith(".encode_time")
+    return str(data.get("function", "")).endswith((".encode_time", "ODLDecoder.decode_datetime"))
 
 
 def is_encoder_record(data):
